@@ -49,6 +49,17 @@ CHECKS["C16"] = dict(
     note="Trusted: TLC, VerifLex hook. Columns are bytes. Parser/execution error positions are checked by the harness's error sweep (see evidence).",
     technique="TLA+ model checking (TLC) + exhaustive replay + trace validation", ref="DESIGN.md §3 C16")
 
+CHECKS["C09"] = dict(
+    text="PongoRender.tla is an abstract interpreter of documents (Exec/Eval over abstract values with an event log). TLC enumerates every "
+         "nesting of if/elif/else, for (empty, reversed, sorted, key/value), ifequal/ifnotequal, firstof, cycle, ifchanged to the bound over "
+         "a data universe of lists, strings, maps and scalars of length 0..3, and predicts the exact output and the event sequence (scope "
+         "push, iteration idx/count, write); every program is rendered by the real engine and both must match; the forloop record of every "
+         "iteration is checked against its declarative definition. The property is a reference-interpreter claim over all programs of a "
+         "grammar - exactly what an executable specification enumerates.",
+    note="Trusted: TLC, the harness's AST-to-text printer and value concretiser, the tracer hooks. Bounds: depth 1 + nested-for to depth 3 + elif chains "
+         "(quick), full depth 2 = 144k programs (thorough). Unsorted map iteration is excluded (Go map order).",
+    technique="TLA+ executable specification enumerated by TLC + exhaustive replay with event-level comparison", ref="DESIGN.md §3 C09")
+
 PENDING = {}
 
 def main():
